@@ -92,6 +92,10 @@ static bool guardsIntact()
   return true;
 }
 
+// set by the raw-pointer ops: the argument range relative to bufferStart as it was before the op
+static bool rawSet = false;
+static unsigned long rawBack = 0, rawFwd = 0, rawLen = 0;
+
 static void observe()
 {
   if(!guardsIntact())
@@ -130,6 +134,9 @@ static void observe()
   printf(" @");
   for(int i = 0; i < NV; ++i)
     printf(" %lu", (unsigned long)var[i]->capacity());
+  if(rawSet)
+    printf(" ~ %lu %lu %lu", rawBack, rawFwd, rawLen);
+  rawSet = false;
   hxEndLine();
 }
 
@@ -178,6 +185,24 @@ int main()
       if(n > size - off) n = size - off;
       if(l.tok[0][1] == 'p') var[v]->append((const byte*)*var[v] + off, n);
       else var[v]->assign((const byte*)*var[v] + off, n);
+    }
+    else if(hxIs(l, "prependraw", 3) || hxIs(l, "appendraw", 3) || hxIs(l, "assignraw", 3))
+    {
+      // a (pointer, size) argument anywhere in the buffer's own allocation [buffer, buffer + _capacity + 1): head-room,
+      // exposed bytes, terminator, spare capacity; given by its offset from `buffer` and clamped to the allocation
+      // (a non-owning buffer: offset from bufferStart, clamped to the exposed bytes).  The observation ends in
+      // ` ~ back fwd len`: data = bufferStart + fwd - back as it was before the op.
+      Buffer& b = *var[v];
+      usize off = hxNum(l, 2), n = hxNum(l, 3);
+      const byte* base = b.buffer ? b.buffer : b.bufferStart;
+      usize blockLen = b.buffer ? b._capacity + 1 : (usize)(b.bufferEnd - b.bufferStart);
+      usize s = b.buffer ? (usize)(b.bufferStart - b.buffer) : 0;
+      if(off > blockLen) off = blockLen;
+      if(n > blockLen - off) n = blockLen - off;
+      rawBack = off < s ? s - off : 0; rawFwd = off > s ? off - s : 0; rawLen = n; rawSet = true;
+      if(l.tok[0][0] == 'p') b.prepend(base + off, n);
+      else if(l.tok[0][1] == 'p') b.append(base + off, n);
+      else b.assign(base + off, n);
     }
     else if(hxIs(l, "append", 2)) { d = hxBytes(l.tok[2], len); var[v]->append(d, len); }
     else if(hxIs(l, "appendb", 2)) var[v]->append(*var[w]);
